@@ -135,7 +135,7 @@ class C15(Prop):
         "canonical_symbol_amino", "canonical_symbol_rna", "canonical_symbol_dna",
         "reverseComplement_twice", "generated_complement_involutive",
         "flushLeftInserts_spec", "markFragmentsOld_row_spec", "markFragmentsOld_rows", "generated_gap_missing_codes",
-        "wuss2ct_accepts_iff", "wuss2ct_involution", "wuss2ct_pairs_matched", "wuss2ct_of_labels", "ct2wuss_nested_labels", "nested_roundtrip", "nested_roundtrip_total", "removeBroken_nested", "repaired_then_compacted_balanced",
+        "wuss2ct_accepts_iff", "wuss2ct_involution", "wuss2ct_pairs_matched", "wuss2ct_of_labels", "ct2wuss_nested_labels", "nested_roundtrip", "nested_roundtrip_total", "simple_nested_roundtrip_total", "removeBroken_nested", "repaired_then_compacted_balanced",
         "wuss2ct_nopk_nested", "nopk_wuss_roundtrip", "nopk_repaired_then_compacted", "wuss_ct_wuss_ct",
         "removeBroken_keeps_exactly", "removeBroken_rejects_unbalanced",
         "ct2wuss_shape", "wussReverse_involutive")]
@@ -151,7 +151,7 @@ class C15(Prop):
                   "annotation, drops comments/GF/GC, result well formed; Clone = identity; digital->text->digital = id, text->digital->text = canonical symbol map (whole regenerated tables by decide); "
                   "ReverseComplement twice = id; FlushLeftInserts and MarkFragments_old keep every row's length and residues; esl_wuss2ct accepts iff all symbols legal and each of the 27 bracket languages balanced, "
                   "its table is a fixed-point-free involution joining matching symbols, nested when the string has no pseudoknot letters; RemoveBrokenBasepairs keeps exactly the pairs with both partners "
-                  "retained; UNCONDITIONAL nested round trip: esl_ct2wuss succeeds on every symmetric nested table and wuss2ct(ct2wuss ct) = ct, hence wuss->ct->wuss->ct = id and 'SS stays balanced WUSS with exactly "
+                  "retained; UNCONDITIONAL nested round trip: esl_ct2wuss and esl_ct2simplewuss succeed on every symmetric nested table and wuss2ct(ct2wuss ct) = ct, hence wuss->ct->wuss->ct = id and 'SS stays balanced WUSS with exactly "
                   "the retained pairs' for every letter-free SS line through repair + compaction; esl_wuss_reverse involutive. The hand model is tied to the working tree by an exact field-by-field differential run; "
                   "monitors restate the property on the implementation's own dumps against independent Python readers.")
     level_note = ("Partial: WITH pseudoknot letters the wuss->ct->wuss->ct round trip (hence the pair set of a re-encoded pseudoknotted SS line after RemoveBrokenBasepairs) is compared on every run against an "
